@@ -1,0 +1,92 @@
+//go:build verif
+
+package errors
+
+// Contracts for govc (see /verif/DESIGN.md). Comment-only file.
+
+//@ func (*DocumentError).detectNewLineSymbol()
+//@   props C17
+//@   requires e != nil && e.file != nil
+//@   nopanic
+//@   modifies e.nl
+//@   ensures isDetectedNL(e.file.content, e.nl)
+//@   loop 0 invariant -1 <= rangeindex && rangeindex < len(content) && content == e.file.content
+//@   loop 0 invariant !found ==> e.nl == 10 && (forall j :: 0 <= j && j <= rangeindex ==> !isNewLine(content[j]))
+//@   loop 0 invariant found ==> 0 <= rangeindex && isNewLine(content[rangeindex]) && e.nl == content[rangeindex]
+//@   loop 0 invariant found ==> (forall j :: 0 <= j && j < rangeindex ==> (isNewLine(content[j]) ==> (forall m :: j <= m && m <= rangeindex ==> isNewLine(content[m]))))
+//@   loop 0 decreases len(content) - rangeindex
+
+//@ func (*DocumentError).preparation()
+//@   props C17
+//@   requires e != nil && e.file != nil && preparedOK(e)
+//@   nopanic
+//@   modifies e.nl, e.length, e.prepared
+//@   ensures e.prepared && preparedOK(e)
+
+//@ func (DocumentError).lineBeginning()
+//@   props C17
+//@   requires e.file != nil && e.index < len(e.file.content)
+//@   nopanic
+//@   ensures isLineStart(e.file.content, e.nl, e.index, result)
+//@   loop 0 invariant content == e.file.content && 0 <= i && i <= e.index
+//@   loop 0 invariant forall j :: i < j && j < e.index ==> content[j] != e.nl
+//@   loop 0 decreases i
+
+//@ func (DocumentError).lineEnd()
+//@   props C17
+//@   requires e.file != nil && e.index < len(e.file.content) && e.length == len(e.file.content)
+//@   nopanic
+//@   ensures exists t :: isLineStop(e.file.content, e.nl, e.index, len(e.file.content), t) && (result == t || (result == t - 1 && t >= 1 && e.file.content[t-1] != e.nl && isNewLine(e.file.content[t-1])))
+//@   ensures e.index <= result + 1 && result <= len(e.file.content)
+//@   loop 0 invariant content == e.file.content && e.index <= i && i <= e.length
+//@   loop 0 invariant forall j :: e.index <= j && j < i ==> content[j] != e.nl
+//@   loop 0 decreases e.length - i
+
+//@ func (*DocumentError).Line()
+//@   props C17
+//@   requires e != nil && preparedOK(e)
+//@   requires e.file != nil ==> e.index < len(e.file.content) || len(e.file.content) == 0
+//@   nopanic
+//@   modifies e.nl, e.length, e.prepared
+//@   ensures preparedOK(e)
+//@   ensures (e.file == nil || len(e.file.content) == 0) ==> result == 0
+//@   ensures e.file != nil && len(e.file.content) > 0 ==> e.prepared && result == countNL(e.file.content, e.nl, e.index) + 1
+//@   loop 0 invariant content == e.file.content && 0 <= i && i <= e.index && e.prepared && preparedOK(e)
+//@   loop 0 invariant (i == e.index ==> n == 0) && (i < e.index ==> n == countNL(content, e.nl, e.index) - countNL(content, e.nl, i + 1)) && n <= e.index - i
+//@   loop 0 decreases i
+
+//@ func (*DocumentError).SourceSubString()
+//@   props C17
+//@   requires e != nil && preparedOK(e)
+//@   requires e.file != nil ==> e.index < len(e.file.content) || len(e.file.content) == 0
+//@   nopanic
+//@   modifies e.nl, e.length, e.prepared
+//@   ensures preparedOK(e)
+//@   ensures len(result) <= 200
+//@   ensures (e.file == nil || len(e.file.content) == 0) ==> len(result) == 0
+
+//@ func (*DocumentError).pointerToTheErrorCharacter()
+//@   props C17
+//@   requires e != nil && preparedOK(e) && e.file != nil && e.index < len(e.file.content)
+//@   nopanic
+//@   modifies e.nl, e.length, e.prepared
+//@   ensures preparedOK(e)
+//@   ensures len(result) >= 1 && result[len(result)-1] == '^'
+//@   ensures forall k :: 0 <= k && k < len(result) - 1 ==> result[k] == '-'
+//@   ensures len(result) - 1 <= e.index
+
+//@ func (*DocumentError).String()
+//@   props C17 C07
+//@   requires e != nil && preparedOK(e)
+//@   requires e.file != nil && e.hasIndex ==> e.index < len(e.file.content)
+//@   nopanic
+//@   modifies e.nl, e.length, e.prepared
+
+//@ func (DocumentError).Error()
+//@   props C17 C07
+//@   requires e.prepared ==> (e.file != nil && e.length == len(e.file.content) && isDetectedNL(e.file.content, e.nl))
+//@   requires e.file != nil && e.hasIndex ==> e.index < len(e.file.content)
+//@   nopanic
+
+//@ func (ErrorCode).Itoa()
+//@   pure
